@@ -300,3 +300,14 @@ impl<W: Write> WriteBox<&mut W> for UrlBox {
         Ok(size)
     }
 }
+
+#[cfg(feature = "verif-hooks")]
+impl DinfBox {
+    pub fn verif_dref(&self) -> &DrefBox {
+        &self.dref
+    }
+
+    pub fn verif_with_dref(dref: DrefBox) -> Self {
+        DinfBox { dref }
+    }
+}
